@@ -11,17 +11,17 @@
 @*/
 /*@recipes
 {
- 'use_default': {'file': 'brush-core/src/expansion.rs', 'start': r'match \(test_type, expanded_parameter\.classify\(\)\) \{', 'nth': 0, 'mode': 'block',
-                 'rewrites': [[r'self\.expand_parameter_word\(\w+\)\s*\.await', '__o.word()', 1]]},
- 'assign_default': {'file': 'brush-core/src/expansion.rs', 'start': r'match \(test_type, expanded_parameter\.classify\(\)\) \{', 'nth': 1, 'mode': 'block',
-                 'rewrites': [[r'self\.expand_parameter_word\(\w+\)\s*\.await', '__o.word()', 1],
+ 'use_default': {'file': 'brush-core/src/expansion.rs', 'start': r'brush_parser::word::ParameterExpr::UseDefaultValues \{[^}]*\} => ', 'mode': 'fn_body',
+                 'rewrites': [[r'self\s*\.expand_parameter_allowing_unset\(&parameter, indirect\)\s*\.await', '__o.param()', 1], [r'self\.expand_parameter_word\(\w+\)\s*\.await', '__o.word()', 1]]},
+ 'assign_default': {'file': 'brush-core/src/expansion.rs', 'start': r'brush_parser::word::ParameterExpr::AssignDefaultValues \{[^}]*\} => ', 'mode': 'fn_body',
+                 'rewrites': [[r'self\s*\.expand_parameter_allowing_unset\(&parameter, indirect\)\s*\.await', '__o.param()', 1], [r'self\.expand_parameter_word\(\w+\)\s*\.await', '__o.word()', 1],
                               [r'self\.fields_to_string\(expanded_default\)', '__o.to_string(expanded_default)', 1],
                               [r'self\.assign_to_parameter\(&parameter, expanded_default_value\.clone\(\)\)\s*\.await', '__o.assign()', 1],
                               [r'Expansion::from\(expanded_default_value\)', '__o.from_assigned(expanded_default_value)', 1]]},
- 'error_if': {'file': 'brush-core/src/expansion.rs', 'start': r'match \(test_type, expanded_parameter\.classify\(\)\) \{', 'nth': 2, 'mode': 'block',
-                 'rewrites': [[r'self\.basic_expand_to_str\(error_message\)\s*\.await', '__o.msg()', 1]]},
- 'use_alt': {'file': 'brush-core/src/expansion.rs', 'start': r'match \(test_type, expanded_parameter\.classify\(\)\) \{', 'nth': 3, 'mode': 'block',
-                 'rewrites': [[r'self\.expand_parameter_word\(\w+\)\s*\.await', '__o.word()', 1]]},
+ 'error_if': {'file': 'brush-core/src/expansion.rs', 'start': r'brush_parser::word::ParameterExpr::IndicateErrorIfNullOrUnset \{[^}]*\} => ', 'mode': 'fn_body',
+                 'rewrites': [[r'self\s*\.expand_parameter_allowing_unset\(&parameter, indirect\)\s*\.await', '__o.param()', 1], [r'self\.basic_expand_to_str\(error_message\)\s*\.await', '__o.msg()', 1]]},
+ 'use_alt': {'file': 'brush-core/src/expansion.rs', 'start': r'brush_parser::word::ParameterExpr::UseAlternativeValue \{[^}]*\} => ', 'mode': 'fn_body',
+                 'rewrites': [[r'self\s*\.expand_parameter_allowing_unset\(&parameter, indirect\)\s*\.await', '__o.param()', 1], [r'self\.expand_parameter_word\(\w+\)\s*\.await', '__o.word()', 1]]},
  'undefined_expansion': {'file': 'brush-core/src/expansion.rs', 'start': r'^\s*fn undefined_expansion\(', 'mode': 'fn_body', 'self_to': 'this'},
  'expand_internal': {'file': 'brush-core/src/expansion.rs', 'start': r'^\s*async fn expand_parameter_internal\(', 'mode': 'fn_body', 'self_to': 'this',
                  'rewrites': [[r'this\s*\.expand_parameter_without_indirect\((&?\w+), (\w+)\)\s*\.await', r'__o.lookup(\2)', 2],
@@ -39,10 +39,12 @@ use brush_parser::word::ParameterTestType as TT;
 
 // results are tagged through the boolean members of Expansion (texts are never compared):
 //   the parameter's own value: from_array == false ; the operand word: fields empty + from_array == true ; assigned default: fields empty + from_array == true + concatenate == false
-pub struct Oracle { pub words: u8, pub assigns: u8, pub msgs: u8, pub lookups: u8, pub lookup_flags: [bool; 2], pub parses: u8, pub internal_flag: Option<bool>, pub first_lookup_fails: bool }
+pub struct Oracle { pub pv: Option<Expansion>, pub params: u8, pub words_before_param: u8, pub words: u8, pub assigns: u8, pub msgs: u8, pub lookups: u8, pub lookup_flags: [bool; 2], pub parses: u8, pub internal_flag: Option<bool>, pub first_lookup_fails: bool }
 impl Oracle {
-    fn new() -> Self { Oracle { words: 0, assigns: 0, msgs: 0, lookups: 0, lookup_flags: [false; 2], parses: 0, internal_flag: None, first_lookup_fails: false } }
-    fn word(&mut self) -> Result<Expansion, error::Error> { self.words += 1; Ok(Expansion { fields: Vec::new(), concatenate: true, from_array: true, undefined: false }) }
+    fn new() -> Self { Oracle { pv: None, params: 0, words_before_param: 0, words: 0, assigns: 0, msgs: 0, lookups: 0, lookup_flags: [false; 2], parses: 0, internal_flag: None, first_lookup_fails: false } }
+    /// the parameter's own (unset-tolerant) expansion: handed out once
+    fn param(&mut self) -> Result<Expansion, error::Error> { self.params += 1; Ok(self.pv.take().unwrap_or_default()) }
+    fn word(&mut self) -> Result<Expansion, error::Error> { self.words += 1; if self.params == 0 { self.words_before_param += 1; } Ok(Expansion { fields: Vec::new(), concatenate: true, from_array: true, undefined: false }) }
     fn to_string(&mut self, e: Expansion) -> String { std::mem::forget(e); String::new() }
     fn assign(&mut self) -> Result<(), error::Error> { self.assigns += 1; Ok(()) }
     fn from_assigned(&mut self, s: String) -> Expansion { std::mem::forget(s); Expansion { fields: Vec::new(), concatenate: false, from_array: true, undefined: false } }
@@ -57,16 +59,24 @@ impl Oracle {
     fn internal(&mut self, allow: bool) -> Result<Expansion, error::Error> { self.internal_flag = Some(allow); Ok(Expansion::default()) }
 }
 
-fn k_use_default(test_type: TT, expanded_parameter: Expansion, __o: &mut Oracle) -> Result<Expansion, error::Error> {
+fn k_use_default(test_type: TT, pv: Expansion, __o: &mut Oracle) -> Result<Expansion, error::Error> {
+    __o.pv = Some(pv);
+    let (parameter, indirect, default_value): (brush_parser::word::Parameter, bool, Option<String>) = (brush_parser::word::Parameter::Positional(1), false, None);
     /*@LIFT use_default*/
 }
-fn k_assign_default(test_type: TT, expanded_parameter: Expansion, parameter: brush_parser::word::Parameter, __o: &mut Oracle) -> Result<Expansion, error::Error> {
+fn k_assign_default(test_type: TT, pv: Expansion, parameter: brush_parser::word::Parameter, __o: &mut Oracle) -> Result<Expansion, error::Error> {
+    __o.pv = Some(pv);
+    let (indirect, default_value): (bool, Option<String>) = (false, None);
     /*@LIFT assign_default*/
 }
-fn k_error_if(test_type: TT, expanded_parameter: Expansion, __o: &mut Oracle) -> Result<Expansion, error::Error> {
+fn k_error_if(test_type: TT, pv: Expansion, __o: &mut Oracle) -> Result<Expansion, error::Error> {
+    __o.pv = Some(pv);
+    let (parameter, indirect, error_message): (brush_parser::word::Parameter, bool, Option<String>) = (brush_parser::word::Parameter::Positional(1), false, None);
     /*@LIFT error_if*/
 }
-fn k_use_alt(test_type: TT, expanded_parameter: Expansion, __o: &mut Oracle) -> Result<Expansion, error::Error> {
+fn k_use_alt(test_type: TT, pv: Expansion, __o: &mut Oracle) -> Result<Expansion, error::Error> {
+    __o.pv = Some(pv);
+    let (parameter, indirect, alternative_value): (brush_parser::word::Parameter, bool, Option<String>) = (brush_parser::word::Parameter::Positional(1), false, None);
     /*@LIFT use_alt*/
 }
 
@@ -101,11 +111,15 @@ fn table_harness(shape: u8) {
         2 => k_error_if(tt, v, &mut o),
         _ => k_use_alt(tt, v, &mut o),
     };
+    assert!(o.params == 1, "C06.tests.parameter_looked_up_once_tolerating_unset");
     // reachability witnesses (each satisfiable for every value shape; the shape-specific ones are guarded by the state)
     kani::cover!(op == 1 && (triggers || st == 2), "assign_operator");
     kani::cover!(op == 3 && !colon && (st == 1 || st != 1), "plus_without_colon");
     kani::cover!(op == 2 && (triggers || st == 2), "error_operator");
     kani::cover!(st != 1 || (colon && triggers), "colon_makes_null_trigger");
+    // an operand word that is not used must not be expanded at all (under `set -u` expanding it could abort the shell on a name bash never looks at)
+    if (op <= 1 && !triggers) || (op == 3 && triggers) { assert!(o.words == 0, "C03.nounset.unused_operand_word_is_never_expanded"); }
+    if op == 2 && !triggers { assert!(o.msgs == 0, "C03.nounset.unused_error_message_is_never_expanded"); }
     match op {
         0 => { let e = vk_ok(r);
                if triggers { assert!(e.from_array && o.words == 1, "C06.default.uses_word"); } else { assert!(!e.from_array && o.words == 0, "C06.default.keeps_parameter"); }
@@ -123,17 +137,17 @@ fn table_harness(shape: u8) {
     }
 }
 
-//@proof {'props': ['C06'], 'tier': 'quick', 'timeout': 600, 'uses': ['use_default', 'assign_default', 'error_if', 'use_alt'], 'bounds': 'parameter unset; operators - = ? + with/without colon', 'render': 'param_test', 'desc': 'POSIX 2.6.2 table on an unset parameter'}
+//@proof {'props': ['C06', 'C03'], 'tier': 'quick', 'timeout': 600, 'uses': ['use_default', 'assign_default', 'error_if', 'use_alt'], 'bounds': 'parameter unset; operators - = ? + with/without colon', 'render': 'param_test', 'desc': 'POSIX 2.6.2 table on an unset parameter'}
 #[kani::proof]
 #[kani::unwind(4)]
 fn vk_c06_tests_unset() { table_harness(0); }
 
-//@proof {'props': ['C06'], 'tier': 'quick', 'timeout': 600, 'uses': ['use_default', 'assign_default', 'error_if', 'use_alt'], 'bounds': 'parameter set to ""', 'render': 'param_test', 'desc': 'POSIX 2.6.2 table on a set-but-null parameter'}
+//@proof {'props': ['C06', 'C03'], 'tier': 'quick', 'timeout': 600, 'uses': ['use_default', 'assign_default', 'error_if', 'use_alt'], 'bounds': 'parameter set to ""', 'render': 'param_test', 'desc': 'POSIX 2.6.2 table on a set-but-null parameter'}
 #[kani::proof]
 #[kani::unwind(4)]
 fn vk_c06_tests_null() { table_harness(2); }
 
-//@proof {'props': ['C06'], 'tier': 'quick', 'timeout': 600, 'uses': ['use_default', 'assign_default', 'error_if', 'use_alt'], 'bounds': 'parameter set to "x"', 'render': 'param_test', 'desc': 'POSIX 2.6.2 table on a set, non-null parameter'}
+//@proof {'props': ['C06', 'C03'], 'tier': 'quick', 'timeout': 600, 'uses': ['use_default', 'assign_default', 'error_if', 'use_alt'], 'bounds': 'parameter set to "x"', 'render': 'param_test', 'desc': 'POSIX 2.6.2 table on a set, non-null parameter'}
 #[kani::proof]
 #[kani::unwind(4)]
 fn vk_c06_tests_set() { table_harness(4); }
